@@ -21,7 +21,8 @@ Shapes: 0 none (attribute absent), 1 FULL (the name DEFAULT), 2 LOWER, 3 UPPER (
 diagonal), 4 LOWS, 5 UPPS (without).  Only classes with R = 1 have consumers.
 
 Case line:
-  R nranks short mt cores M mb esz N NT O ntiles o.. C nc { c R mode modify  in  nouts {out} }
+  R nranks short mt cores M mb esz N NT O ntiles o.. C nc { c R mode modify  in  nouts {out} } [T bcast]
+  bcast: broadcast topology of the run (runtime_comm_coll_bcast: 0 star = default here, 1 chain, 2 binomial)
   mode: W (RW flow) | R (READ flow);  modify: the body xors every byte of the tile with c+1.
 """
 
@@ -48,6 +49,7 @@ class Prog:
     def __init__(self):
         self.nranks, self.short, self.mt, self.cores = 1, 1, 0, 2
         self.mb, self.esz, self.nt = 3, 4, 1
+        self.bcast = 0      # runtime_comm_coll_bcast: 0 star, 1 chain, 2 binomial (trailing "T n" of the case, star when absent)
         self.owner = []
         self.classes = []
 
@@ -75,6 +77,8 @@ def to_case(p):
             w += ["B"] + list(c.inp2)
         if c.gates:
             w += ["G", len(c.gates)] + list(c.gates)
+    if p.bcast:
+        w += ["T", p.bcast]
     return " ".join(str(x) for x in w)
 
 
@@ -126,6 +130,9 @@ def parse_case(line):
             nx()
             c.gates = [ni() for _ in range(ni())]
         p.classes.append(c)
+    if pos[0] < len(t) and t[pos[0]] == "T":
+        nx()
+        p.bcast = ni()
     if pos[0] != len(t):
         raise ValueError("trailing tokens")
     return p
@@ -570,5 +577,53 @@ def gen_twoflow(rng, nranks=2):
     p.cores = rng.pick([1, 2])
     p.mt = rng.pick([0, 0, 1])
     p.short = 0
+    assert wf(p) is None, wf(p)
+    return p
+
+
+def single_message(p):
+    """every producer instance sends ONE message (one (type, type_remote) group) to the other ranks: the situation in
+    which a forwarding broadcast tree (chain, binomial) is usable here (two messages with different destination sets
+    abort in the relay, finding F8 of C13)"""
+    for ci, C in enumerate(p.classes):
+        if C.R != 1:
+            continue
+        for k in range(p.nt):
+            me = p.rank_of(ci, k, 0)
+            if len({(u["to"], u["tro"]) for u in succs(p, ci, k) if u["rank"] != me}) > 1:
+                return False
+    return True
+
+
+def gen_bcast(rng, nranks=3):
+    """the family of the forwarding broadcast: ONE output dependency of a producer on rank 0 fans out over all the ranks
+    (a replicated consumer class, 2 instances per rank), every consumer receives with the same type_remote, except an odd
+    consumer (another class fed by the same message: same type and type_remote on the producer's side) placed on the
+    rank that is an interior node of the chain / binomial tree (rank 1 for root 0) and declaring another reception type of
+    the same packed size: that rank receives PACKED bytes and FORWARDS them; the consumers of the ranks behind it must
+    still observe the producer's elements."""
+    p = Prog()
+    p.nranks = nranks
+    p.mb = rng.pick([2, 3, 3, 4])
+    p.esz = rng.pick([1, 4, 4, 8])
+    p.nt = rng.pick([1, 1, 2])
+    a, b = rng.pick([(2, 3), (3, 2), (2, 3), (4, 5), (5, 4)])
+    tro = rng.pick([a, a, b])                 # what the producer packs
+    R = 2 * nranks
+    P0 = Cls(1, "W", rng.pick([0, 1]), ("D", 0, 0), [])
+    many = Cls(R, "R", 0, ("T", 0, 0, 0, a), [])
+    odd = Cls(1, "R", 0, ("T", 0, 0, 0, b), [])
+    order = rng.pick([0, 1])
+    p.classes = [P0, many, odd] if order == 0 else [P0, odd, many]
+    im, io = (1, 2) if order == 0 else (2, 1)
+    P0.outs = [("E", im, 0, tro), ("E", io, 0, tro)] if rng.chance(1, 2) else [("E", io, 0, tro), ("E", im, 0, tro)]
+    owner = {0: [0] * p.nt}
+    owner[im] = [(r % nranks) for k in range(p.nt) for r in range(R)]
+    owner[io] = [1] * p.nt
+    p.owner = owner[0] + owner[1] + owner[2]
+    p.cores = 1
+    p.mt = rng.pick([0, 0, 1])
+    p.short = rng.pick([0, 1])
+    p.bcast = rng.pick([1, 2])
     assert wf(p) is None, wf(p)
     return p
